@@ -6,11 +6,12 @@
 From Coq Require Import List ZArith NArith QArith Qcanon Bool Lia.
 Import ListNotations.
 Require Import UPV.Core.Expr UPV.Core.Eval UPV.Core.Interp UPV.Planning.Problem UPV.Planning.Sem.
-Require Import UPV.Proofs.Eval_lemmas UPV.Proofs.Sem_proofs UPV.Proofs.Step_proofs.
+Require Import UPV.Proofs.Eval_lemmas UPV.Proofs.Sem_proofs UPV.Proofs.Step_proofs UPV.Proofs.Subst_proofs.
 Require Import UPV.Compilers.Variants UPV.Proofs.Variants_proofs.
 Require Import UPV.Compilers.LayerA_Defs UPV.Compilers.LayerA_Quant UPV.Compilers.LayerA_Variants.
 Require Import UPV.Proofs.LayerA_base UPV.Proofs.LayerA_Quant_proofs UPV.Proofs.LayerA_Variants_proofs.
 Require Import UPV.Planning.Ground UPV.Compilers.LayerA_Ground UPV.Proofs.LayerA_Ground_proofs.
+Require Import UPV.Compilers.LayerA_Inv UPV.Compilers.LayerA_Neg UPV.Proofs.LayerA_Inv_proofs UPV.Proofs.LayerA_Neg_proofs.
 Require Import UPV.Compilers.LayerA_Pipe.
 Local Open Scope nat_scope.
 
@@ -148,8 +149,10 @@ Section FromSim.
   Hypothesis Hstep : forall s s' x' t', st_rel st s s' -> st_okD st x' ->
     run (st_dst st) (spec_step false (st_dst st)) s' [x'] = Some t' ->
     exists t, run (st_src st) (spec_step false (st_src st)) s (ostep (st_back st) x') = Some t /\ st_rel st t t'.
-  (* the compiled state determines the source state *)
-  Hypothesis Huniq : forall s s' t t', st_rel st s s' -> st_rel st t t' -> state_eq s' t' -> state_eq s t.
+  (* a compiled step that changes nothing is matched by a source step that changes nothing (e.g. because the compiled
+     state determines the source state) *)
+  Hypothesis Huniq : forall s s' x' t t', st_rel st s s' -> st_rel st t t' -> state_eq s' t' ->
+    run (st_src st) (spec_step false (st_src st)) s (ostep (st_back st) x') = Some t -> state_eq s t.
 
   Lemma sim_run pi' : forall s s' t', st_rel st s s' -> Forall (st_okD st) pi' ->
     run (st_dst st) (spec_step false (st_dst st)) s' pi' = Some t' ->
@@ -176,7 +179,7 @@ Section FromSim.
 
   Theorem sim_noop : stage_noop st.
   Proof.
-    intros s s' pi' rho' HR Hok Hsub. revert s HR Hok.
+    intros s s' pi' rho' HR Hok _ Hsub. revert s HR Hok.
     induction Hsub as [s' | s' aid args a' t' pi' rho' EL ES _ IH | s' aid args a' t' pi' rho' EL ES Hno _ IH];
       intros s HR Hok.
     - constructor.
@@ -192,10 +195,10 @@ Section FromSim.
       assert (E1 : run (st_dst st) (spec_step false (st_dst st)) s' [(aid, args)] = Some t')
         by (rewrite run_single, EL; exact ES).
       destruct (Hstep s s' (aid, args) t' HR Hx E1) as [t [Et HRt]].
+      assert (Hst : state_eq s t) by (apply (Huniq s s' (aid, args) t t' HR HRt); [intros f x; symmetry; apply Hno | exact Et]).
       rewrite pback_cons. unfold ostep in *. destruct (st_back st (aid, args)) as [[i ar]|].
       + rewrite run_single in Et. destruct (lookup_action (st_src st) i) as [a|] eqn:ELo; [|discriminate].
         cbn [app]. eapply sne_drop; [exact ELo | exact Et | | apply IH; assumption].
-        assert (Hst : state_eq s t) by (apply (Huniq s s' t t' HR HRt); intros f x; symmetry; apply Hno).
         intros f x. symmetry. apply Hst.
       + cbn [run] in Et. inversion Et; subst t. cbn [app]. apply IH; assumption.
   Qed.
@@ -231,11 +234,11 @@ Section Compose.
     apply (Ha s0 s1 _ R1 Hoka). rewrite Hlink. exact (Hb s1 s2 pi' R2 Hokb Hv).
   Qed.
 
-  Theorem compose_noop : stage_noop a -> stage_noop b -> stage_noop (compose a b).
+  Theorem compose_noop : stage_sound b -> stage_noop a -> stage_noop b -> stage_noop (compose a b).
   Proof.
-    intros Ha Hb s0 s2 pi' rho' [s1 [R1 R2]] Hok Hsub. rewrite !compose_back.
+    intros Sb Ha Hb s0 s2 pi' rho' [s1 [R1 R2]] Hok Hv Hsub. rewrite !compose_back.
     destruct (okD_compose pi' Hok) as [Hokb Hoka].
-    apply (Ha s0 s1 _ _ R1 Hoka). rewrite Hlink. exact (Hb s1 s2 pi' rho' R2 Hokb Hsub).
+    apply (Ha s0 s1 _ _ R1 Hoka); rewrite Hlink; [exact (Sb s1 s2 pi' R2 Hokb Hv) | exact (Hb s1 s2 pi' rho' R2 Hokb Hv Hsub)].
   Qed.
 
   (* completeness composes, the bounds add; what stage a guarantees of its compiled plan must be what stage b asks
@@ -253,7 +256,7 @@ Section Compose.
     rewrite <- Hlink in N2.
     split.
     - apply compose_okD; [exact D2|]. exact (sne_Forall _ _ _ _ _ N2 D1).
-    - rewrite compose_back. eapply sne_trans; [exact N1|]. exact (Hna s0 s1 pi1 _ R1 D1 N2).
+    - rewrite compose_back. eapply sne_trans; [exact N1|]. rewrite <- Hlink in V1. exact (Hna s0 s1 pi1 _ R1 D1 V1 N2).
   Qed.
 
   Theorem compose_certified :
@@ -272,7 +275,7 @@ Proof.
   - intros s s' pi HR _ Hv. cbn in HR. subst s'. exists pi. cbn [id_stage st_back st_src st_dst st_aux st_okD].
     split; [change (st_aux (id_stage Q)) with 0; unfold pplan, pstep in *; lia|]. split; [exact Hv|]. split; [apply Forall_forall; intros; exact I|].
     rewrite pback_Some. apply sne_valid_refl. exact Hv.
-  - intros s s' pi' rho' HR _ Hsub. cbn in HR. subst s'. cbn [id_stage st_back st_src]. rewrite !pback_Some. exact Hsub.
+  - intros s s' pi' rho' HR _ _ Hsub. cbn in HR. subst s'. cbn [id_stage st_back st_src]. rewrite !pback_Some. exact Hsub.
 Qed.
 
 Lemma compose_all_dst l Q : st_dst (compose_all l Q) = Q.
@@ -358,7 +361,7 @@ Section QuantStage.
       assert (Ht : plan_targets_total P [x']) by (apply Forall_targets; constructor; [exact Hok | constructor]).
       destruct (quant_run_sound smp Hsmp P tau Hu Hwf [x'] s t' Hb Ht ER) as [E Hb'].
       exists t'. split; [exact E | split; [reflexivity | exact Hb']].
-    - intros s s' t t' [<- _] [<- _] H. exact H.
+    - intros s s' x' t t' [<- _] [<- _] H _. exact H.
   Qed.
 
   Lemma quant_stage_complete : no_action_dropped smp P -> stage_complete (quant_stage smp P).
@@ -406,7 +409,7 @@ Section CerStage.
                   eq_refl Hu' G Gstep (cer_Hsound simp_pre Hsimp nm P Hu G Hcond) [x'] s s' t' HG Hs ER)
         as (t & Et & Ht & HGt).
       exists t. split; [exact Et | split; assumption].
-    - intros s s' t t' [Hs _] [Ht _] H f x. cbn in Hs, Ht. rewrite Hs, Ht. apply H.
+    - intros s s' x' t t' [Hs _] [Ht _] H _ f x. cbn in Hs, Ht. rewrite Hs, Ht. apply H.
   Qed.
 
   Lemma cer_stage_complete :
@@ -544,7 +547,7 @@ Section GroundStage.
     - intros s s' x' t' [<- HG] _ ER. cbn [ground_stage st_back st_src st_dst] in *.
       pose proof (ground_run_sound smp tuples nm P G Hsmp Hu Hu' Gstep Hinst [x'] s t' HG ER) as E.
       exists t'. split; [exact E|]. split; [reflexivity|]. eapply ground_run_G; [exact HG | exact E].
-    - intros s s' t t' [<- _] [<- _] H. exact H.
+    - intros s s' x' t t' [<- _] [<- _] H _. exact H.
   Qed.
 
   Lemma ground_stage_complete :
@@ -649,3 +652,369 @@ Section GroundCer.
     rewrite (pback_ext _ _ pi' (pipeline_back_spec l P2)) in S. exact S.
   Qed.
 End GroundCer.
+
+(* ================================================================== 7. further stages (third round) *)
+(* a step changes only fluents that some effect of the action targets *)
+Lemma collect_res_In' L : forall acts x, collect_res L = Some acts -> In x acts -> In (EAct x) L.
+Proof.
+  induction L as [|[| |y] L IH]; intros acts x; cbn [collect_res].
+  - intros E. inversion E; subst. intros [].
+  - discriminate.
+  - intros E Hx. right. eapply IH; eassumption.
+  - destruct (collect_res L) as [l|]; [|discriminate]. intros E. inversion E; subst. intros [->|Hx].
+    + left; reflexivity.
+    + right. eapply IH; [reflexivity | exact Hx].
+Qed.
+
+Lemma filter_other_key g x (h : aeff -> bool) acts : (forall a, In a acts -> fst (ae_key a) <> g) ->
+  filter (fun a => gfl_eqb (ae_key a) (g, x) && h a) acts = [].
+Proof.
+  intros H. induction acts as [|a acts IH]; [reflexivity|]. cbn [filter].
+  assert (E : gfl_eqb (ae_key a) (g, x) = false).
+  { unfold gfl_eqb. cbn [fst snd]. replace (fst (ae_key a) =? g)%N with false; [reflexivity|].
+    symmetry. apply N.eqb_neq. apply H. left; reflexivity. }
+  rewrite E. cbn. apply IH. intros y Hy. apply H. right; exact Hy.
+Qed.
+
+Lemma step_untouched P s a args t g : spec_step false P s a args = Some t ->
+  (forall e, In e (a_effs a) -> e_fl e <> g) -> forall x, t g x = s g x.
+Proof.
+  rewrite spec_step_eq. destruct (negb _); [discriminate|].
+  destruct (fired false (mk_interp P s (zip_params (a_params a) args)) (a_effs a)) as [acts|] eqn:EF; [|discriminate].
+  destruct (negb _); [discriminate|]. destruct (invariants_ok _ _ _); [|discriminate].
+  intros E Hne x. inversion E; subst t. clear E.
+  assert (Hk : forall y, In y acts -> fst (ae_key y) <> g).
+  { intros y Hy. unfold fired in EF. pose proof (collect_res_In' _ _ _ EF Hy) as Hin.
+    apply in_flat_map in Hin. destruct Hin as [e [He Hin]]. apply in_map_iff in Hin. destruct Hin as [J [EJ _]].
+    unfold eval_effect in EJ. destruct (evals_l false J (e_args e)) as [vs|]; [|discriminate].
+    destruct (eval false (e_cond e) J) as [[[|]| |]|]; try discriminate.
+    destruct (eval false (e_val e) J); [|discriminate]. inversion EJ; subst y. cbn [ae_key fst]. apply Hne. exact He. }
+  unfold spec_succ, spec_fluent, avals, deltas. cbn [fst snd].
+  rewrite !(filter_other_key g x _ acts Hk). reflexivity.
+Qed.
+
+(* ---- NegativeConditionsRemover *)
+Section NcrStage.
+  Variable nmap : list (N * N).
+  Variables rw smp : expr -> expr.
+  Variable P : problem.
+  Hypothesis H1 : nmap_ok nmap P = true.
+  Hypothesis H2 : problem_clean nmap P = true.
+  Hypothesis H3 : ncr_safe nmap P = true.
+  Hypothesis H4 : rw_ok nmap rw P.
+  Hypothesis H5 : smp_exact smp.
+
+  Lemma ncr_stage_sound : stage_sound (ncr_stage nmap rw smp P).
+  Proof.
+    intros s s' pi' HR _ Hv. cbn [ncr_stage st_back st_src st_dst st_rel] in *. rewrite pback_Some.
+    rewrite <- (neg_valid_plan_safe nmap rw smp P H1 H2 H3 H4 H5 s s' pi' HR). exact Hv.
+  Qed.
+
+  Lemma ncr_stage_complete : stage_complete (ncr_stage nmap rw smp P).
+  Proof.
+    intros s s' pi HR _ Hv. cbn [ncr_stage st_back st_src st_dst st_rel st_aux st_okD] in *. exists pi.
+    split; [plia|]. split; [rewrite (neg_valid_plan_safe nmap rw smp P H1 H2 H3 H4 H5 s s' pi HR); exact Hv|].
+    split; [apply Forall_forall; intros; exact I|]. rewrite pback_Some. apply sne_valid_refl. exact Hv.
+  Qed.
+
+  Lemma clean_targets aid a g : lookup_action P aid = Some a -> is_negb nmap g = true ->
+    forall e, In e (a_effs a) -> e_fl e <> g.
+  Proof.
+    intros EL Hg e He Heq. subst g. apply lookupN_In in EL.
+    unfold problem_clean in H2. nfsplit.
+    match goal with Hq : forallb _ (p_actions P) = true |- _ => rewrite forallb_forall in Hq; specialize (Hq _ EL); cbn [snd] in Hq end.
+    nfsplit. match goal with Hq : forallb (effect_clean nmap) _ = true |- _ => rewrite forallb_forall in Hq; specialize (Hq e He) end.
+    unfold effect_clean in *. nfsplit.
+    match goal with Hn : negb (is_negb nmap (e_fl e)) = true |- _ => rewrite Hg in Hn; discriminate end.
+  Qed.
+
+  Lemma ncr_stage_noop : stage_noop (ncr_stage nmap rw smp P).
+  Proof.
+    apply sim_noop.
+    - intros s s' x' t' HR _ ER. cbn [ncr_stage st_back st_src st_dst st_rel] in *.
+      pose proof (neg_run_safe nmap rw smp P H1 H2 H3 H4 H5 [x'] s s' HR) as Hx. rewrite ER in Hx.
+      unfold ostep. destruct (run P (spec_step false P) s [x']) as [t|]; [|destruct Hx].
+      exists t. split; [reflexivity | exact Hx].
+    - intros s s' [aid args] t t' HR HRt Hs' ER g x. cbn [ncr_stage st_back st_src st_dst st_rel] in *.
+      unfold ostep in ER. rewrite run_single in ER.
+      destruct (lookup_action P aid) as [a|] eqn:EL; [|discriminate].
+      destruct (is_negb nmap g) eqn:Eg.
+      + symmetry. apply (step_untouched P s a args t g ER (clean_targets aid a g EL Eg)).
+      + destruct HR as [Ra _], HRt as [Rb _]. rewrite <- (Ra g x Eg), <- (Rb g x Eg). apply Hs'.
+  Qed.
+
+  Lemma ncr_stage_certified : certified (ncr_stage nmap rw smp P).
+  Proof. constructor; [exact ncr_stage_sound | exact ncr_stage_complete | exact ncr_stage_noop]. Qed.
+End NcrStage.
+
+(* ---- CompilersPipeline([QuantifiersRemover(), NegativeConditionsRemover()]) *)
+Section QuantNcr.
+  Variable smp : expr -> expr.
+  Hypothesis Hsmp : smp_exact smp.
+  Variable P : problem.
+  Variable tau : N -> N.
+  Hypothesis Hu : unique_ids P.
+  Hypothesis Hwf : problem_wf P tau = true.
+  Let P1 := quant_compile smp P.
+  Variable nmap : list (N * N).
+  Variables rw smp2 : expr -> expr.
+  (* the NegativeConditionsRemover hypotheses are about the INTERMEDIATE (quantifier-free) problem *)
+  Hypothesis H1 : nmap_ok nmap P1 = true.
+  Hypothesis H2 : problem_clean nmap P1 = true.
+  Hypothesis H3 : ncr_safe nmap P1 = true.
+  Hypothesis H4 : rw_ok nmap rw P1.
+  Hypothesis H5 : smp_exact smp2.
+  Let P2 := neg_compile nmap rw smp2 P1.
+  Let l := qn_stages smp nmap rw smp2 P.
+
+  Lemma qn_linked : linked l P2.
+  Proof. cbn. repeat split; auto. Qed.
+
+  Lemma qn_pback pi' : pback (pipeline_back l) pi' = pi'.
+  Proof.
+    rewrite (pipeline_pback l P2). unfold l, qn_stages. cbn [fold_right quant_stage ncr_stage st_back].
+    rewrite !pback_Some. reflexivity.
+  Qed.
+
+  Lemma qn_okD pi' : plan_targets_total P pi' -> Forall (st_okD (compose_all l P2)) pi'.
+  Proof.
+    intros H. apply Forall_targets in H. eapply Forall_impl; [|exact H]. intros x Hx. cbn. repeat split; auto.
+  Qed.
+
+  Lemma qn_rel s0 s0' : bool_state P s0 -> neg_rel nmap s0 s0' -> st_rel (compose_all l P2) s0 s0'.
+  Proof.
+    intros Hb HR. exists s0. split; [split; [reflexivity | exact Hb]|]. exists s0'. split; [exact HR | reflexivity].
+  Qed.
+
+  Theorem pipe_quant_ncr_sound s0 s0' pi' : bool_state P s0 -> neg_rel nmap s0 s0' -> plan_targets_total P pi' ->
+    valid_plan false P2 s0' pi' = true -> valid_plan false P s0 (pback (pipeline_back l) pi') = true.
+  Proof.
+    intros Hb HR Ht Hv.
+    assert (Hs : Forall stage_sound l).
+    { constructor; [exact (quant_stage_sound smp Hsmp P tau Hu Hwf)|]. constructor; [|constructor].
+      exact (ncr_stage_sound nmap rw smp2 P1 H1 H2 H3 H4 H5). }
+    pose proof (pipeline_sound l P2 Hs qn_linked s0 s0' pi' (qn_rel s0 s0' Hb HR) (qn_okD pi' Ht)) as H.
+    rewrite (pback_ext _ _ pi' (pipeline_back_spec l P2)) in H. apply H. exact Hv.
+  Qed.
+
+  Hypothesis Hnd : no_action_dropped smp P.
+
+  Theorem pipe_quant_ncr_complete s0 s0' pi : bool_state P s0 -> neg_rel nmap s0 s0' -> plan_targets_total P pi ->
+    valid_plan false P s0 pi = true ->
+    exists pi', length pi' <= length pi /\ valid_plan false P2 s0' pi' = true /\
+                sub_noop_eq P s0 pi (pback (pipeline_back l) pi').
+  Proof.
+    intros Hb HR Ht Hv. apply Forall_targets in Ht.
+    assert (Hc : certified (compose_all l P2)).
+    { apply pipeline_certified; [|exact qn_linked].
+      constructor; [exact (quant_stage_certified smp Hsmp P tau Hu Hwf Hnd)|]. constructor; [|constructor].
+      exact (ncr_stage_certified nmap rw smp2 P1 H1 H2 H3 H4 H5). }
+    destruct (cs_complete _ Hc s0 s0' pi (qn_rel s0 s0' Hb HR) Ht Hv) as (pi' & L & V & _ & S).
+    exists pi'. split; [cbn in L; plia|]. split; [exact V|].
+    rewrite (pback_ext _ _ pi' (pipeline_back_spec l P2)) in S. exact S.
+  Qed.
+End QuantNcr.
+
+(* ---- the compilers that move constraints into preconditions and goals (BoundedTypesRemover, StateInvariantsRemover):
+   they do NOT simulate the source problem step by step (the constraints are checked before a step instead of after
+   it), but along a VALID compiled plan every state satisfies the moved constraints, which is what stage_noop asks *)
+Section InvNoop.
+  Variable smp : expr -> expr.
+  Hypothesis Hsmp : smp_holds smp.
+  Variables P P' : problem.
+  Variable cond : expr.
+  Variable M : list expr.
+  Hypothesis Hobj : p_objs P' = p_objs P.
+  Hypothesis Hif : p_ifun P' = p_ifun P.
+  Hypothesis Hbf : forall f, is_bool_fluent P' f = is_bool_fluent P f.
+  Hypothesis Hact : p_actions P' = map_actions (inv_action smp cond) (p_actions P).
+  Hypothesis Hgoal : p_goals P' = inv_goals smp cond (p_goals P).
+  Hypothesis Hinv : forall s, invariants_ok false P s = invariants_ok false P' s && moved_ok P M s.
+  Hypothesis Hcond : forall s pars, holds false (mk_interp P s pars) cond = moved_ok P M s.
+  Hypothesis Hu : unique_ids P.
+
+  Lemma moved_ok_ext s t : state_eq s t -> moved_ok P M s = moved_ok P M t.
+  Proof. intros H. unfold moved_ok. apply all_hold_ext, mk_interp_ext, H. Qed.
+
+  Lemma inv_step s s' a a' args t' : state_eq s s' -> inv_action smp cond a = Some a' ->
+    spec_step false P' s' a' args = Some t' -> moved_ok P M t' = true ->
+    exists t, spec_step false P s a args = Some t /\ state_eq t t'.
+  Proof.
+    intros Hs EA ES Hm. destruct (inv_action_shape smp cond a a' EA) as [Ep Ee].
+    rewrite spec_step_eq in ES. rewrite spec_step_eq. rewrite Ep, Ee in ES.
+    set (pars := zip_params (a_params a) args) in *.
+    rewrite (all_hold_ext false _ _ _ (interp_same P P' Hobj Hif s s' pars Hs)),
+            (fired_ext false _ _ _ (interp_same P P' Hobj Hif s s' pars Hs)) in ES.
+    rewrite (inv_action_pre smp Hsmp P cond M Hcond s pars a a' EA) in ES.
+    destruct (all_hold false (mk_interp P s pars) (a_pre a)); cbn [andb negb] in *; [|discriminate].
+    destruct (moved_ok P M s); cbn [negb] in ES; [|discriminate].
+    destruct (fired false (mk_interp P s pars) (a_effs a)) as [acts|]; [|discriminate].
+    rewrite (effects_ok_same P P' Hbf s s' acts Hs) in ES.
+    destruct (spec_effects_ok P s acts); cbn [negb] in *; [|discriminate].
+    pose proof (succ_same P P' Hbf s s' acts Hs) as Hss.
+    rewrite (invok_same P' _ _ Hss) in ES.
+    destruct (invariants_ok false P' (spec_succ P s acts)) eqn:EI; [|discriminate]. inversion ES; subst t'.
+    rewrite (Hinv (spec_succ P s acts)), EI, (moved_ok_ext _ _ Hss), Hm. cbn.
+    exists (spec_succ P s acts). split; [reflexivity | exact Hss].
+  Qed.
+
+  Lemma inv_noop : forall s' pi rho, sub_noop_eq P' s' pi rho ->
+    forall s, state_eq s s' -> valid_plan false P' s' pi = true -> sub_noop_eq P s pi rho.
+  Proof.
+    pose proof (inv_valid_plan smp Hsmp P P' cond M Hobj Hif Hbf Hact Hgoal Hinv Hcond Hu) as VP.
+    induction 1 as [s' | s' aid args a' t' pi rho EL ES _ IH | s' aid args a' t' pi rho EL ES Hno _ IH];
+      intros s Hs Hv; [constructor| |].
+    - assert (Hv' : valid_plan false P' t' pi = true)
+        by (unfold valid_plan in Hv |- *; cbn [run] in Hv; rewrite EL, ES in Hv; exact Hv).
+      assert (Hm : moved_ok P M t' = true)
+        by (rewrite (VP pi t' t' (state_eq_refl t')) in Hv'; apply andb_true_iff in Hv'; tauto).
+      unfold lookup_action in EL. rewrite Hact, (lookup_map_actions _ _ _ Hu) in EL. fold (lookup_action P aid) in EL.
+      destruct (lookup_action P aid) as [a|] eqn:ELo; [|discriminate].
+      destruct (inv_step s s' a a' args t' Hs EL ES Hm) as [t [Et Ht]].
+      eapply sne_keep; [exact ELo | exact Et | apply IH; assumption].
+    - assert (Hv' : valid_plan false P' t' pi = true)
+        by (unfold valid_plan in Hv |- *; cbn [run] in Hv; rewrite EL, ES in Hv; exact Hv).
+      assert (Hm : moved_ok P M t' = true)
+        by (rewrite (VP pi t' t' (state_eq_refl t')) in Hv'; apply andb_true_iff in Hv'; tauto).
+      unfold lookup_action in EL. rewrite Hact, (lookup_map_actions _ _ _ Hu) in EL. fold (lookup_action P aid) in EL.
+      destruct (lookup_action P aid) as [a|] eqn:ELo; [|discriminate].
+      destruct (inv_step s s' a a' args t' Hs EL ES Hm) as [t [Et Ht]].
+      eapply sne_drop; [exact ELo | exact Et | | apply IH; assumption].
+      intros f x. rewrite (Ht f x), (Hno f x). symmetry. apply Hs.
+  Qed.
+End InvNoop.
+
+(* ---- BoundedTypesRemover *)
+Section BtrStage.
+  Variable smp : expr -> expr.
+  Hypothesis Hsmp : smp_holds smp.
+  Variable P : problem.
+  Hypothesis Hu : unique_ids P.
+
+  Lemma btr_stage_sound : stage_sound (btr_stage smp P).
+  Proof.
+    intros s s' pi' [<- _] _ Hv. cbn [btr_stage st_back st_src st_dst] in *. rewrite pback_Some.
+    exact (btr_sound smp Hsmp P Hu s pi' Hv).
+  Qed.
+
+  Lemma btr_stage_complete : stage_complete (btr_stage smp P).
+  Proof.
+    intros s s' pi [<- Hb] _ Hv. cbn [btr_stage st_back st_src st_dst st_aux st_okD] in *. exists pi.
+    split; [plia|]. split; [exact (btr_complete smp Hsmp P Hu s pi Hb Hv)|].
+    split; [apply Forall_forall; intros; exact I|]. rewrite pback_Some. apply sne_valid_refl. exact Hv.
+  Qed.
+
+  Lemma btr_stage_noop : stage_noop (btr_stage smp P).
+  Proof.
+    intros s s' pi' rho' [<- _] _ Hv Hsub. cbn [btr_stage st_back st_src st_dst] in *. rewrite !pback_Some.
+    apply (inv_noop smp Hsmp P (btr_compile smp P) (btr_cond P) (bound_invs P)) with (s' := s); try reflexivity; try assumption.
+    - intros f. unfold is_bool_fluent. apply is_bool_fluent_unbound.
+    - exact (btr_inv smp P).
+    - exact (btr_cond_ok P).
+    - apply state_eq_refl.
+  Qed.
+
+  Lemma btr_stage_certified : certified (btr_stage smp P).
+  Proof. constructor; [exact btr_stage_sound | exact btr_stage_complete | exact btr_stage_noop]. Qed.
+End BtrStage.
+
+(* ---- StateInvariantsRemover *)
+Section SirStage.
+  Variable smp : expr -> expr.
+  Hypothesis Hsmp : smp_holds smp.
+  Variable P : problem.
+  Hypothesis Hu : unique_ids P.
+  Hypothesis Hclosed : Forall (closed_cond P) (p_invs P).
+
+  Lemma sir_stage_sound : stage_sound (sir_stage smp P).
+  Proof.
+    intros s s' pi' [<- _] _ Hv. cbn [sir_stage st_back st_src st_dst] in *. rewrite pback_Some.
+    exact (sir_sound smp Hsmp P Hu Hclosed s pi' Hv).
+  Qed.
+
+  Lemma sir_stage_complete : stage_complete (sir_stage smp P).
+  Proof.
+    intros s s' pi [<- Hb] _ Hv. cbn [sir_stage st_back st_src st_dst st_aux st_okD] in *. exists pi.
+    split; [plia|]. split; [exact (sir_complete smp Hsmp P Hu Hclosed s pi Hb Hv)|].
+    split; [apply Forall_forall; intros; exact I|]. rewrite pback_Some. apply sne_valid_refl. exact Hv.
+  Qed.
+
+  Lemma sir_stage_noop : stage_noop (sir_stage smp P).
+  Proof.
+    intros s s' pi' rho' [<- _] _ Hv Hsub. cbn [sir_stage st_back st_src st_dst] in *. rewrite !pback_Some.
+    apply (inv_noop smp Hsmp P (sir_compile smp P) (sir_cond smp P) (p_invs P)) with (s' := s); try reflexivity; try assumption.
+    - exact (sir_inv smp P).
+    - exact (sir_cond_ok smp Hsmp P Hclosed).
+    - apply state_eq_refl.
+  Qed.
+
+  Lemma sir_stage_certified : certified (sir_stage smp P).
+  Proof. constructor; [exact sir_stage_sound | exact sir_stage_complete | exact sir_stage_noop]. Qed.
+End SirStage.
+
+(* ---- CompilersPipeline([BoundedTypesRemover(), ConditionalEffectsRemover()]) *)
+Section BtrCer.
+  Variable smp : expr -> expr.
+  Hypothesis Hsmp : smp_holds smp.
+  Variable P : problem.
+  Hypothesis Hu : unique_ids P.
+  Let P1 := btr_compile smp P.
+  Hypothesis Hu1 : unique_ids P1.
+  Variable simp_pre : list expr -> option (list expr).
+  Hypothesis Hsimp : simp_pre_ok simp_pre.
+  Variable nm : N -> nat -> N.
+  Let P2 := cer_compile simp_pre nm P1.
+  Hypothesis Hu2 : unique_ids P2.
+  Variable G : state -> Prop.
+  Hypothesis Gstep : forall s aid a args t, G s -> lookup_action P1 aid = Some a -> spec_step false P1 s a args = Some t -> G t.
+  Hypothesis Hcond : forall s args i a, G s -> In (i, a) (p_actions P1) ->
+    Forall (cond_ok P1 s a args) (cond_effs (a_effs a)).
+  Let l := bc_stages smp simp_pre nm G P.
+
+  Lemma bc_linked : linked l P2.
+  Proof. cbn. repeat split; auto. Qed.
+
+  Lemma bc_pback pi' : pback (pipeline_back l) pi' = vt_map_back (cer_table simp_pre nm P1) pi'.
+  Proof.
+    rewrite (pipeline_pback l P2). unfold l, bc_stages. cbn [fold_right btr_stage cer_stage st_back].
+    rewrite pback_Some. symmetry. apply vt_map_back_pback.
+  Qed.
+
+  Lemma bc_okD pi' : Forall (st_okD (compose_all l P2)) pi'.
+  Proof. apply Forall_forall. intros x _. cbn. repeat split; auto. Qed.
+
+  Lemma bc_rel s0 : all_hold false (mk_interp P s0 []) (bound_invs P) = true -> G s0 -> st_rel (compose_all l P2) s0 s0.
+  Proof.
+    intros Hb HG. exists s0. split; [split; [reflexivity | exact Hb]|].
+    exists s0. split; [split; [intros f x; reflexivity | exact HG] | reflexivity].
+  Qed.
+
+  (* soundness: the initial-state condition of the stage relation is not needed (BoundedTypesRemover is sound from any
+     state), so it is discharged through the verdict equation instead of being assumed *)
+  Theorem pipe_btr_cer_sound s0 pi' : G s0 ->
+    valid_plan false P2 s0 pi' = true -> valid_plan false P s0 (pback (pipeline_back l) pi') = true.
+  Proof.
+    intros HG Hv. rewrite bc_pback.
+    apply (btr_sound smp Hsmp P Hu s0).
+    exact (cer_sound simp_pre Hsimp nm P1 Hu1 Hu2 G Gstep Hcond s0 pi' HG Hv).
+  Qed.
+
+  Hypothesis Hconf : forall s args i a, G s -> In (i, a) (p_actions P1) ->
+    add_effs_ok [] [] (a_effs (ce_variant a (the_sel P1 s a args))) = false -> applicable P1 s a args = false.
+
+  Theorem pipe_btr_cer_complete s0 pi : all_hold false (mk_interp P s0 []) (bound_invs P) = true -> G s0 ->
+    valid_plan false P s0 pi = true ->
+    exists pi', length pi' <= length pi /\ valid_plan false P2 s0 pi' = true /\
+                sub_noop_eq P s0 pi (pback (pipeline_back l) pi').
+  Proof.
+    intros Hb HG Hv.
+    assert (Hc : certified (compose_all l P2)).
+    { apply pipeline_certified; [|exact bc_linked].
+      constructor; [exact (btr_stage_certified smp Hsmp P Hu)|]. constructor; [|constructor].
+      exact (cer_stage_certified simp_pre Hsimp nm P1 Hu1 Hu2 G Gstep Hcond Hconf). }
+    assert (Hok : Forall (st_okS (compose_all l P2)) pi) by (apply Forall_forall; intros x _; exact I).
+    destruct (cs_complete _ Hc s0 s0 pi (bc_rel s0 Hb HG) Hok Hv) as (pi' & L & V & _ & S).
+    exists pi'. split; [cbn in L; plia|]. split; [exact V|].
+    rewrite (pback_ext _ _ pi' (pipeline_back_spec l P2)) in S. exact S.
+  Qed.
+End BtrCer.
